@@ -55,6 +55,7 @@ class OptAlias(Alias):
 
 def check(model, R, tier):
     R.rule('C08.OWN', 'every value stored into optimizer state is fresh storage: it may not alias the parameter\'s gradient buffer or data on any path', floor=5)
+    R.rule('C08.GRAD-CONST', 'step() performs no in-place effect on storage that may alias a parameter\'s gradient buffer (may-alias abstract interpretation): the gradient is read-only for the optimizer', floor=3)
     R.rule('C08.INPLACE', 'the parameter update is an augmented assignment on p.data inside the loop over self.parameters (no rebinding of the storage)', floor=3)
     R.rule('C08.FROZEN', 'every write of p.data / optimizer state / read of p._grad in step is control-dependent on p.requires_grad and on the gradient being present; zero_grad skips frozen parameters', floor=10)
     R.rule('C08.NOGRAD', 'the parameter loop runs inside `with no_grad()`', floor=3)
@@ -82,6 +83,10 @@ def check(model, R, tier):
                 seen.add(k)
                 R.ob('C08.OWN', q, norm(e['stmt'])[:100], not e['aliases'],
                      'value stored into %s may alias %s: a later backward() accumulates in place into that buffer and corrupts the optimizer state' % (e['state'], e['aliases']), e['loc'])
+            muts = [e for e in I.events if e['kind'] == 'mutation' and any(x.endswith(('._grad', '.grad')) for x in e['params'])]
+            R.ob('C08.GRAD-CONST', q, 'in-place effects on the gradient buffer: %s' % ([norm(e['stmt'])[:60] for e in muts] or 'none'), not muts,
+                 'step() modifies storage that may alias the parameter\'s gradient buffer (%s): p.grad read after the step, or accumulated over several backward calls, is corrupted'
+                 % [(norm(e['stmt'])[:60], e['how']) for e in muts][:2], muts[0]['loc'] if muts else f.loc)
             if not stores and STATE[cls]:
                 R.ob('C08.OWN', q, 'state stores', False, 'no store into optimizer state found', f.loc)
         except Incomplete as e:
